@@ -1,0 +1,45 @@
+//go:build verif
+// +build verif
+
+package zenodb
+
+import (
+	"time"
+
+	"github.com/getlantern/wal"
+)
+
+// VerifHook, when set (before any DB is opened), is called at the
+// instrumented points of the ingest, flush, recovery, scan and cluster code.
+// It may record the event, block (acting as a scheduler gate) or copy the
+// data directory (crash image). Only built with -tags verif.
+var VerifHook func(ev string, kv ...interface{})
+
+func vhook(ev string, kv ...interface{}) {
+	if h := VerifHook; h != nil {
+		h(ev, kv...)
+	}
+}
+
+// VerifNow exposes the database clock.
+func (db *DB) VerifNow() time.Time {
+	return db.clock.Now()
+}
+
+// VerifAdvanceClock advances the database clock like an accepted point would.
+func (db *DB) VerifAdvanceClock(ts time.Time) {
+	db.clock.Advance(ts)
+}
+
+// VerifFlushTable forces a flush of one table (FlushAll does all of them).
+func (db *DB) VerifFlushTable(name string) {
+	t := db.getTable(name)
+	if t != nil {
+		t.forceFlush()
+	}
+}
+
+// VerifOffset is a printable form of a WAL offset.
+func VerifOffset(o wal.Offset) [2]int64 {
+	return [2]int64{o.FileSequence(), o.Position()}
+}
